@@ -57,17 +57,13 @@ class _Holder(object):
     pass
 
 
-class _Lib(object):
-    name = None
-
-    def __init__(self, descriptors, mat, rmse, known):
-        h = _Holder()
-        h.thermochem = rmse
-        self.uq_contents = dict(RMSE=h, descriptors=list(descriptors), mat=mat, dof=10)
-        self.known = set(known)
-
-    def __getitem__(self, g):
-        return {'thermochem': _Corr()} if g in self.known else {}
+def _Lib(descriptors, mat, rmse, known):
+    """a REAL GroupLibrary carrying synthetic uncertainty data (as _do_load builds it)"""
+    from pgradd.GroupAdd.Library import GroupLibrary
+    h = _Holder()
+    h.thermochem = rmse
+    contents = dict((g, {'thermochem': _Corr()}) for g in known)
+    return GroupLibrary(None, contents, dict(RMSE=h, descriptors=list(descriptors), mat=mat, dof=10))
 
 
 _sqrt_args = []
@@ -267,6 +263,7 @@ def obligations(tier, seed):
         obs.append(dict(name='quadform_symbolicM_%s' % g, func='h_quadform', param=dict(mode='symbolicM', getter=g), timeout=to))
     obs.append(dict(name='scaling', func='h_scaling', param=dict(getter='get_HoRT'), timeout=to))
     obs.append(dict(name='outside_basis', func='h_outside_basis', param={}, timeout=to))
+    obs.append(dict(name='two_libraries', func='h_two_libraries', param={}, timeout=to))
     import yaml  # noqa: F401
     for lib in UQ_LIBS:
         n = _basis_size(lib)
@@ -325,3 +322,36 @@ def validate(tier, seed):
         entry['violation'] = [False, 'raised:' + type(e).__name__, {'x': x}]
         entry['func'] = 'concrete'
     return [entry]
+
+
+def h_two_libraries(d: bool):
+    """
+    post: _[0]
+    """
+    begin()
+    # two library objects (same path: None) whose uncertainty bases list the same descriptors in DIFFERENT orders, with the
+    # matrix permuted accordingly: the same mapping must give the same radicand from both, whichever is used first
+    m = _install()
+    x = [R('x0'), R('x1'), R('x2')]
+    perm = list(itertools.permutations(range(3)))[choose('perm2', 6)]
+    rm = _Rmse()
+    libA = _Lib(NAMES, M3, rm, NAMES)
+    namesB = [NAMES[i] for i in perm]
+    MB = [[M3[perm[i]][perm[j]] for j in range(3)] for i in range(3)]
+    libB = _Lib(namesB, MB, rm, NAMES)
+    groups = dict(zip(NAMES, x))
+    first = choose('first', 2)
+    order = [libA, libB] if first == 0 else [libB, libA]
+    rads = []
+    for lib in order:
+        est = m['gd'].ThermochemGroupAdditive(lib, groups)
+        st, v, rad = _se(est, 'get_HoRT')
+        if st != 'value':
+            return finish(False, st)
+        rads.append(rad)
+    want = rm.r['get_HoRT'] * rm.r['get_HoRT'] * _quad(M3, x)
+    if REPLAY is None:
+        ok, lab = all_close([(rads[0], want), (rads[1], want)], ['first library used', 'two_libraries: the second library used gives a different radicand'])
+    else:
+        ok, lab = True, 'ok'
+    return finish(ok, lab)
